@@ -526,7 +526,7 @@ func (runInfo *runInfoStruct) makeCallArgs(rt reflect.Type, isRunVMFunction bool
 		spread := runInfo.rv
 		for indexInReal < numInReal {
 			if isRunVMFunction {
-				args = append(args, reflect.ValueOf(spread.Index(indexSlice)))
+				args = append(args, reflect.ValueOf(detach(spread.Index(indexSlice))))
 			} else {
 				runInfo.rv, runInfo.err = convertReflectValueToType(spread.Index(indexSlice), rt.In(indexInReal))
 				if runInfo.err != nil {
